@@ -669,6 +669,33 @@ func opSet(s sel, v int) lop {
 	}}
 }
 
+// opElemJSON: Element.UnmarshalJSON sets the value of a listed element like
+// Set does; decoding into the root sentinel (what Front()/Back() of an empty
+// list and Back().Next() hand out) is rejected and changes nothing. Detached
+// elements are left out for the same reason as in opSet's doc note.
+func opElemJSON(s sel, v int) lop {
+	return lop{fmt.Sprintf("Element.UnmarshalJSON(%s,%d)", s, v), func(w *lworld) outcome {
+		r, ok := w.resolve(s)
+		if !ok || r.id == idNil {
+			return na()
+		}
+		if r.id != idRoot && w.locOf(r) < 0 {
+			return na()
+		}
+		o := outcome{applicable: true, class: "Element.UnmarshalJSON"}
+		err := r.e.UnmarshalJSON([]byte(fmt.Sprint(v)))
+		if r.id == idRoot {
+			o.class, o.rejected = "Element.UnmarshalJSON-root", true
+			return o
+		}
+		w.m[r.id].val = v
+		if err != nil {
+			o.oracle, o.info = "return-value", "Element.UnmarshalJSON of a number failed: "+err.Error()
+		}
+		return o
+	}}
+}
+
 func opSwap(s1, s2 sel) lop {
 	return lop{fmt.Sprintf("Swap(%s,%s)", s1, s2), func(w *lworld) outcome {
 		a, ok := w.resolve(s1)
@@ -847,6 +874,7 @@ func listAlphabet() []lop {
 		ops = append(ops, opRemove(s, true))
 	}
 	ops = append(ops, opSet(f(A), 3), opSet(m(A), 1), opSet(b(A), 2), opSet(rt(A), 1))
+	ops = append(ops, opElemJSON(f(A), 2), opElemJSON(b(A), 3), opElemJSON(rt(A), 1))
 	ops = append(ops,
 		opSwap(f(A), b(A)), opSwap(b(A), f(A)), opSwap(f(A), m(A)), opSwap(m(A), f(A)), opSwap(m(A), b(A)), opSwap(b(A), m(A)),
 		opSwap(m(A), m2(A)), opSwap(m2(A), m(A)), opSwap(f(A), m2(A)), opSwap(m2(A), b(A)),
